@@ -83,7 +83,10 @@ typedef struct {
   const char *volatile waiting;
   volatile int opidx;
   int nev;
+  int holds_wk;              // this thread holds the store's worker-count mutex (iwkv->wk_mtx)
 } Rec;
+static IWKV g_kv;            // (tentative definition: the store under test, defined below)
+static atomic_int g_excl_bad, g_excl_bad_n;   // exclusive store lock taken by _wnw() while workers were still registered
 static __thread Rec *t_rec;
 static Rec g_bg[8];
 static atomic_int g_nbg;
@@ -124,7 +127,10 @@ int __wrap_pthread_rwlock_rdlock(pthread_rwlock_t *l) {
 }
 int __wrap_pthread_rwlock_wrlock(pthread_rwlock_t *l) {
   Rec *r = cur_rec(); maybe_yield(r); r->waiting = lk_name(l);
-  int rc = __real_pthread_rwlock_wrlock(l); r->waiting = 0; ev(r, rc ? 'E' : 'w', l); return rc;
+  int rc = __real_pthread_rwlock_wrlock(l); r->waiting = 0; ev(r, rc ? 'E' : 'w', l);
+  // exclusive access to the store is taken with the worker-count mutex held and must find no worker registered (open cursors count)
+  if (!rc && g_kv && l == &g_kv->rwl && r->holds_wk && g_kv->wk_count > 0) { atomic_fetch_add(&g_excl_bad, 1); atomic_store(&g_excl_bad_n, (int) g_kv->wk_count); }
+  return rc;
 }
 int __wrap_pthread_rwlock_unlock(pthread_rwlock_t *l) {
   Rec *r = cur_rec(); ev(r, 'u', l);
@@ -132,10 +138,13 @@ int __wrap_pthread_rwlock_unlock(pthread_rwlock_t *l) {
 }
 int __wrap_pthread_mutex_lock(pthread_mutex_t *l) {
   Rec *r = cur_rec(); maybe_yield(r); r->waiting = lk_name(l);
-  int rc = __real_pthread_mutex_lock(l); r->waiting = 0; ev(r, rc ? 'E' : 'l', l); return rc;
+  int rc = __real_pthread_mutex_lock(l); r->waiting = 0; ev(r, rc ? 'E' : 'l', l);
+  if (!rc && g_kv && l == &g_kv->wk_mtx) r->holds_wk = 1;
+  return rc;
 }
 int __wrap_pthread_mutex_unlock(pthread_mutex_t *l) {
   Rec *r = cur_rec(); ev(r, 'v', l);
+  if (g_kv && l == &g_kv->wk_mtx) r->holds_wk = 0;
   int rc = __real_pthread_mutex_unlock(l); maybe_yield(r); return rc;
 }
 int __wrap_pthread_cond_wait(pthread_cond_t *c, pthread_mutex_t *l) {
@@ -743,6 +752,8 @@ int main(int argc, char **argv) {
       char *d = dump_store_api(g_kv);
       guard_off();
       printf("dump %s\n", d); free(d);
+      if (atomic_load(&g_excl_bad)) printf("exclbad %d %d\n", atomic_load(&g_excl_bad), atomic_load(&g_excl_bad_n));
+      atomic_store(&g_excl_bad, 0);
       t_thr = 0;
       // close under the watchdog too (a corrupted lock count shows up here)
       {
